@@ -10,12 +10,16 @@ use crate::world::Opts;
 
 pub type Exec = fn(&Scenario, &mut Acc) -> Result<Vec<crate::report::Violation>, String>;
 
-fn still_fails(exec: Exec, sc: &Scenario, sig: &str) -> bool {
-    let mut acc = Acc::default();
-    match exec(sc, &mut acc) {
-        Ok(vs) => vs.iter().any(|v| v.signature() == sig),
-        Err(_) => false,
+pub fn still_fails(exec: Exec, sc: &Scenario, sig: &str, attempts: u32) -> bool {
+    for _ in 0..attempts.max(1) {
+        let mut acc = Acc::default();
+        if let Ok(vs) = exec(sc, &mut acc) {
+            if vs.iter().any(|v| v.signature() == sig) {
+                return true;
+            }
+        }
     }
+    false
 }
 
 /// Candidate simplifications, most aggressive first.
@@ -169,7 +173,7 @@ fn candidates(sc: &Scenario) -> Vec<Scenario> {
     out
 }
 
-pub fn minimise(exec: Exec, sc: &Scenario, sig: &str, budget: Duration) -> (Scenario, usize) {
+pub fn minimise(exec: Exec, sc: &Scenario, sig: &str, budget: Duration, attempts: u32) -> (Scenario, usize) {
     let start = Instant::now();
     let mut best = sc.clone();
     let mut tried = 0usize;
@@ -179,7 +183,7 @@ pub fn minimise(exec: Exec, sc: &Scenario, sig: &str, budget: Duration) -> (Scen
                 break 'outer;
             }
             tried += 1;
-            if still_fails(exec, &c, sig) {
+            if still_fails(exec, &c, sig, attempts) {
                 best = c;
                 continue 'outer;
             }
